@@ -141,6 +141,19 @@ pub fn check(v: &View) -> Vec<Violation> {
     let stuck = v.out.outcome.hung || v.out.outcome.cap_phase == 1 || v.out.outcome.setup_failed;
     if stuck {
         for o in v.ops.iter().filter(|o| !o.ended()) {
+            // waiting for the end of an actor that runs on, is still held by somebody (be it the
+            // waiter itself) and was never asked to stop is not a hang, it is what was asked for
+            if matches!(o.inner, Op::Join { .. } | Op::JoinFinish | Op::DropThenJoin { .. } | Op::Await { .. } | Op::Take { .. }) {
+                let ends = o.target.and_then(|t| v.actor_of(t)).is_some_and(|a| {
+                    let t = o.target.unwrap();
+                    a.dead.is_some()
+                        || v.stop_requests(t).iter().any(|r| r.accepted_ret.is_some())
+                        || crate::census::census(v, t).t0().is_some_and(|x| x < v.phase_seq(Phase::ClientsDone))
+                });
+                if !ends {
+                    continue;
+                }
+            }
             out.push(violation(
                 P,
                 "never-resolves",
